@@ -6,6 +6,7 @@ import (
 	"fmt"
 	"io"
 	"mime"
+	"os"
 	"path"
 
 	"verif/corpus"
@@ -199,6 +200,8 @@ func c12Case(env *Env, tape *sim.Tape) *CaseOut {
 	}
 
 	site := fmt.Sprintf("%s:%s", entryNames[entry], doc.MT)
+	out.TraceHash = st.TraceHash
+	out.Digest = HashOf(op.Out, errText(op.Err), errText(op.CloseErr))
 	out.Key = HashOf(di, entry, chunks, op.ReadBufs, op.ContentType, op.RequestURI, op.ContentLength, op.Status, useBytes, st.TraceHash)
 	out.Nontrivial = len(chunks) > 1 || !scheduled || st.Steps > 3
 	out.stat("entry_"+entryNames[entry], 1)
@@ -345,6 +348,9 @@ func c12Search(s *Search) {
 	complete := true
 	job := 0
 	for di := 0; di < nshort; di++ {
+		if os.Getenv("VERIF_RANDOM_ONLY") != "" {
+			break
+		}
 		n := len(env.Corpus[di].Data)
 		if n > maxN {
 			if n <= 12 {
